@@ -7,7 +7,7 @@ import SecsModel.Model.Parser
 import SecsModel.Model.Print
 import SecsModel.Proofs.PrintParseNum
 import SecsModel.Props.C15
-import SecsModel.Props.C09
+import SecsModel.Proofs.FillLeaf
 namespace Secs
 namespace Sml
 open Lex Strconv
@@ -274,14 +274,14 @@ theorem itemBody_array {α} (ll : PS → R Tmpl × PS) (ty : Bytes) (f : α → 
 /-! ### the factories give a well-formed node back from its own slots -/
 
 theorem argOf_eq_subst {α} (canon : α → GoVal) (xs : List (Slot α)) :
-    xs.map (argOf canon) = xs.map (C09.substSlot canon []) := by
+    xs.map (argOf canon) = xs.map (FillLeaf.substSlot canon []) := by
   apply List.map_congr_left
   intro x _
   cases x <;> rfl
 
 theorem rebuild_int (w : Nat) (xs : List (Slot Int)) (hw : (Tmpl.int w xs).wf = true) :
     mkInt w (xs.map (argOf (.sint 64))) = some (.int w xs) := by
-  rw [argOf_eq_subst]; exact C09.rebuild_int w xs hw
+  rw [argOf_eq_subst]; exact FillLeaf.rebuild_int w xs hw
 
 theorem slotsOk_mem {α} (p : α → Bool) (xs : List (Slot α)) (h : slotsOk p xs = true) :
     (∀ a, Slot.val a ∈ xs → p a = true) ∧ (∀ n, Slot.var n ∈ xs → isValidVarName n = true) := by
